@@ -412,10 +412,11 @@ def _list(ex, st, args, kwargs, k, where):
         return k(s2, l)
     if isinstance(v, VPy) and v.what == "dictview":
         d, mode = v.obj, v.extra
-        fn = ex.reg.specfns.get("dict_snapshot")
-        if fn is None:
-            raise Unsupported("list(dict view)")
-        return k(*fn(ex, st, d, mode))
+        # a snapshot of the view: usable as the iterable of a `for` (the elements are those the dictionary held NOW, in
+        # an arbitrary order fixed here); any other use of the list is outside the subset
+        snap = VPy("dictsnap", d, mode)
+        snap.snap_state = st
+        return k(st, snap)
     if isinstance(v, VSet):
         s2, l = list_of_set(ex, st, v)
         return k(s2, l)
@@ -743,6 +744,12 @@ def _time(ex, st, args, kwargs, k, where):
     return k(s2, VFloat(t))
 
 
+@ext("time.monotonic")
+def _monotonic(ex, st, args, kwargs, k, where):
+    """time.monotonic(): a clock unrelated to time.time() (an arbitrary real; the virtual clock does not move)"""
+    return k(st, VFloat(ex.arbitrary(REAL, "monotonic")))
+
+
 @ext("time.sleep")
 def _sleep(ex, st, args, kwargs, k, where):
     t = ex.decls.fresh("now", REAL)
@@ -842,6 +849,25 @@ def _inet_pton(ex, st, args, kwargs, k, where):
     outs = ex.raise_(st.assume(Not(valid)), "OSError", f"illegal IP address string at {where}")
     s2 = st.assume(valid)
     outs += k(s2, VBytes(pton(ex, s2, fam, s.t)))
+    return outs
+
+
+@ext("socket.inet_aton")
+def _inet_aton(ex, st, args, kwargs, k, where):
+    """socket.inet_aton: accepts every dotted quad (with the result of inet_pton) AND other spellings ("10.1", "0x7f.1",
+    trailing text after a space) - for those the result is some 4 bytes"""
+    s = args[0]
+    if not isinstance(s, VStr):
+        return ex.raise_(st, "TypeError", f"inet_aton of non-str at {where}")
+    strict = _ufun(ex, "is_ipv4", [STR], BOOL, s.t)
+    loose = _ufun(ex, "aton_accepts", [STR], BOOL, s.t)
+    ok = Or(strict, loose)
+    outs = ex.raise_(st.assume(Not(ok)), "OSError", f"illegal IP address string at {where}")
+    s2 = st.assume(strict)
+    outs += k(s2, VBytes(pton(ex, s2, 4, s.t)))
+    s3 = st.assume(And(Not(strict), loose))
+    t = ex.arbitrary(SEQI, "aton")
+    outs += k(s3.assume(Eq(seq_len(t), I(4))), VBytes(t))
     return outs
 
 
